@@ -300,7 +300,9 @@ def roundtrip(R, tmp, group, recipe, bpm, check=("notes", "name", "instr", "mete
 
 
 # ------------------------------------------------------------------------------------------------ generators
-INTEGRAL = [v for v in W.VALUES_INTEGRAL + [4 / 1.5, 8 / 1.5, 2 / 1.5, 16 / 1.5, 4 / 1.75, 1.5, 2 / 1.75, 8 / 1.75]
+# ... plus float values 288.0/k (k ticks exactly, but 288/value in double arithmetic may land just below k)
+INTEGRAL = [v for v in W.VALUES_INTEGRAL + [4 / 1.5, 8 / 1.5, 2 / 1.5, 16 / 1.5, 4 / 1.75, 1.5, 2 / 1.75, 8 / 1.75] +
+            [288.0 / k for k in (5, 7, 10, 11, 13, 14, 15, 20, 21, 28, 30, 31, 35, 40, 42, 56, 60, 63, 70)]
             if whole_ticks(v) is not None]
 
 
